@@ -1,16 +1,16 @@
 #!/bin/bash
-# usage: tools/seedall.sh C10 C11 ...   evaluates patch.diff/demo.py and patch2.diff/demo2.py of each /tmp/seed-out/<ID>
+# usage: tools/seedall.sh C10 C11 ...   evaluates patch.diff/demo.py and patch2.diff/demo2.py of each ${SEEDDIR:-/tmp/seed-out}/<ID>
 for p in "$@"; do
   for k in "" 2; do
-    if [ -f /tmp/seed-out/$p/patch$k.diff ]; then
-      /verif/tools/seedcheck.py /tmp/seed-out/$p $p --patch patch$k.diff --demo demo$k.py > /tmp/seed-out/$p/result$k.json 2>&1
+    if [ -f ${SEEDDIR:-/tmp/seed-out}/$p/patch$k.diff ]; then
+      /verif/tools/seedcheck.py ${SEEDDIR:-/tmp/seed-out}/$p $p --patch patch$k.diff --demo demo$k.py > ${SEEDDIR:-/tmp/seed-out}/$p/result$k.json 2>&1
       python3 - <<PY
 import json
 try:
-    r=json.load(open('/tmp/seed-out/$p/result$k.json'))
+    r=json.load(open('${SEEDDIR:-/tmp/seed-out}/$p/result$k.json'))
     print('$p', 'patch$k', 'suite', r.get('suite_still_passes'), 'demo', r.get('demo_fails_with_patch'), r.get('demo_passes_without'), 'CAUGHT' if r.get('caught_by_own_check') else 'MISSED', (r.get('checks',{}).get('$p',{}).get('detail') or '')[:200])
 except Exception as e:
-    print('$p patch$k: evaluation failed', e, open('/tmp/seed-out/$p/result$k.json').read()[-300:])
+    print('$p patch$k: evaluation failed', e, open('${SEEDDIR:-/tmp/seed-out}/$p/result$k.json').read()[-300:])
 PY
     fi
   done
